@@ -214,19 +214,27 @@ func (o *Object) Sexp() *Node {
 	if o.Oneof {
 		head = "oneof"
 	}
-	return L(head, S(o.Name), propsSexp("props", o.Props), nestedSexp(o.Nested))
+	n := L(head, S(o.Name), propsSexp("props", o.Props), nestedSexp(o.Nested))
+	if o.PSM != nil {
+		n.Kids = append(n.Kids, L("psm", S(o.PSM.Entity), A(o.PSM.Part)))
+	}
+	return n
 }
 
-func optsSexp(opts []string) *Node {
+func optsSexp(opts []string, nums Nums) *Node {
 	n := L("opts")
 	for _, o := range opts {
-		n.Kids = append(n.Kids, L("o", S(o)))
+		if v := nums[o]; v > 0 {
+			n.Kids = append(n.Kids, L("o", S(o), N(int(v))))
+		} else {
+			n.Kids = append(n.Kids, L("o", S(o)))
+		}
 	}
 	return n
 }
 
 func (e *Enum) Sexp() *Node {
-	return L("enum", S(e.Name), S(e.Prefix), optsSexp(e.Opts))
+	return L("enum", S(e.Name), S(e.Prefix), optsSexp(e.Opts, e.Nums))
 }
 
 func (p *Prop) Sexp() *Node {
@@ -315,7 +323,7 @@ func (t *TRef) Sexp() *Node {
 	case RInlObj, RInlOneof:
 		return L(t.Kind, S(t.Name), propsSexp("props", t.Props))
 	case RInlEnum:
-		return L("inlenum", S(t.Name), S(t.Prefix), optsSexp(t.Opts))
+		return L("inlenum", S(t.Name), S(t.Prefix), optsSexp(t.Opts, t.Nums))
 	}
 	panic("bad tref kind")
 }
@@ -366,7 +374,11 @@ func (e *Entity) Sexp() *Node {
 	}
 	st := L("statuses")
 	for _, s := range e.Statuses {
-		st.Kids = append(st.Kids, S(s))
+		if v := e.StatusNums[s]; v > 0 {
+			st.Kids = append(st.Kids, L("o", S(s), N(int(v))))
+		} else {
+			st.Kids = append(st.Kids, S(s))
+		}
 	}
 	ev := L("events")
 	for _, o := range e.Events {
@@ -551,7 +563,8 @@ func DecElem(n *Node) *Elem {
 		return &Elem{Kind: k, Object: o}
 	case "enum":
 		a := n.expect("enum", 3)
-		return &Elem{Kind: KEnum, Enum: &Enum{Name: a[0].Str(), Prefix: a[1].Str(), Opts: decOpts(a[2])}}
+		opts, nums := decOpts(a[2])
+		return &Elem{Kind: KEnum, Enum: &Enum{Name: a[0].Str(), Prefix: a[1].Str(), Opts: opts, Nums: nums}}
 	case "service":
 		return &Elem{Kind: KService, Service: decService(n)}
 	case "topic":
@@ -583,6 +596,12 @@ func DecElem(n *Node) *Elem {
 		}
 		e.Data = decProps(a[3], "data")
 		for _, s := range a[4].expect("statuses", 0) {
+			if s.List {
+				name, v := decOpt(s)
+				e.Statuses = append(e.Statuses, name)
+				e.StatusNums = e.StatusNums.set(name, v)
+				continue
+			}
 			e.Statuses = append(e.Statuses, s.Str())
 		}
 		for _, o := range a[5].expect("events", 0) {
@@ -631,16 +650,45 @@ func decObject(n *Node) *Object {
 	if h != "object" && h != "oneof" {
 		bad("expected object/oneof")
 	}
+	if len(n.Kids) == 5 {
+		a := n.expect(h, 4)
+		pa := a[3].expect("psm", 2)
+		if h != "object" || pa[1].List {
+			bad("bad psm")
+		}
+		switch pa[1].Atom {
+		case "keys", "state", "event", "data":
+		default:
+			bad("bad entity part")
+		}
+		return &Object{Name: a[0].Str(), Props: decProps(a[1], "props"), Nested: decNested(a[2]), PSM: &ObjPSM{Entity: pa[0].Str(), Part: pa[1].Atom}}
+	}
 	a := n.expect(h, 3)
 	return &Object{Oneof: h == "oneof", Name: a[0].Str(), Props: decProps(a[1], "props"), Nested: decNested(a[2])}
 }
 
-func decOpts(n *Node) []string {
-	var out []string
-	for _, o := range n.expect("opts", 0) {
-		out = append(out, o.expect("o", 1)[0].Str())
+// decOpt: (o NAME) or (o NAME N), N > 0 the number written on the option
+func decOpt(o *Node) (string, int32) {
+	if len(o.Kids) == 3 {
+		a := o.expect("o", 2)
+		v := a[1].Int()
+		if v <= 0 || v > 1<<20 {
+			bad("bad option number")
+		}
+		return a[0].Str(), int32(v)
 	}
-	return out
+	return o.expect("o", 1)[0].Str(), 0
+}
+
+func decOpts(n *Node) ([]string, Nums) {
+	var out []string
+	var nums Nums
+	for _, o := range n.expect("opts", 0) {
+		name, v := decOpt(o)
+		out = append(out, name)
+		nums = nums.set(name, v)
+	}
+	return out, nums
 }
 
 func decProps(n *Node, head string) []*Prop {
@@ -796,7 +844,8 @@ func decTRef(n *Node) *TRef {
 		return &TRef{Kind: k, Name: a[0].Str(), Props: decProps(a[1], "props")}
 	case RInlEnum:
 		a := n.expect(k, 3)
-		return &TRef{Kind: k, Name: a[0].Str(), Prefix: a[1].Str(), Opts: decOpts(a[2])}
+		opts, nums := decOpts(a[2])
+		return &TRef{Kind: k, Name: a[0].Str(), Prefix: a[1].Str(), Opts: opts, Nums: nums}
 	}
 	bad("bad tref")
 	return nil
